@@ -25,6 +25,7 @@ func serverScope(u *flow.Unit) bool { return strings.HasPrefix(u.Name, "server."
 
 func runC12(ctx *Ctx) {
 	ruleGateHeldUntilAckOrDone(ctx, "C12-R2b")
+	ruleGateRetest(ctx, "C12-R2c")
 	ruleLockBalance(ctx, "C12-R1", serverScope)
 	ruleLockContracts(ctx, "C12-R1c", func(n string) bool { return strings.HasPrefix(n, "server.") })
 	ruleGuardedBy(ctx, "C12-R1g", func(g guardedField) bool { return g.pkg == "server" })
@@ -167,7 +168,7 @@ func ruleServerAdmission(ctx *Ctx, rule string) {
 	q := ssaq.For(ctx.Prog)
 	f := q.Func("server.(*Server).start")
 	found := false
-	for _, b := range f.Blocks {
+	for _, b := range frameBlocks(f) {
 		for _, in := range b.Instrs {
 			st, ok := in.(*ssa.Store)
 			if !ok {
